@@ -312,4 +312,12 @@ def main(argv=None):
     return 0
 
 if __name__ == "__main__":
-    sys.exit(main())
+    # The verdict is printed and the evidence is on disk when main() returns. Replays run in this process, and one that drives
+    # coba's real Multiprocessor with a hard-killed worker can leave a multiprocessing queue feeder thread waiting for a
+    # lock its dead peer held: the interpreter's shutdown would join that thread for ever (seen: a finished C08 check that never
+    # exited). So leave without finalizers, as vlib.worker does.
+    rc = main()
+    try:
+        sys.stdout.flush(); sys.stderr.flush()
+    finally:
+        os._exit(rc if isinstance(rc, int) else 1)
